@@ -394,7 +394,7 @@ def num_types(rng, tier):
             types.append((base, "and", [(">", pvf("2.0"))]))
         types.append((base, "or", []))
         types.append((base, "and", []))
-        n3 = 0 if tier == "quick" else 2000
+        n3 = 0 if tier == "quick" else 1500
         refs3 = refs + ([pvi(-3)] if base == "int" else [pvf("-0.25"), pvf("inf")])
         for _ in range(n3):
             types.append((base, rng.choice(["and", "or"]), [(rng.choice(OPS), rng.choice(refs3)) for _ in range(3)]))
